@@ -462,8 +462,6 @@ def main(args=None):
     __file__ = script_file
     __name__ = '__main__'
 
-    if options.output_interval:
-        rt = RepeatedTimer(max(options.output_interval, 1), prof.dump_stats, options.outfile)
     original_stdout = sys.stdout
     if options.output_interval:
         rt = RepeatedTimer(max(options.output_interval, 1), prof.dump_stats, options.outfile)
